@@ -85,6 +85,13 @@ def grids(tier, seed):
         for kind in ("categorical", "gaussian", "mixed"):
             for root in [None] + list(range(d)):
                 out.append(("ChowLiuTree", dict(d=d, kind=kind, root=root, dseed=seed + d)))
+    # other dependence structures (the shape of the learned tree and the order in which variable ids
+    # appear along it vary): independent columns, a Markov chain over a shuffled column order, two clusters
+    for d in range(3, 6 if q else 8):
+        for kind in ("independent", "chain", "chain-gaussian", "clusters"):
+            for root in ([None, d - 1] if q else [None] + list(range(d))):
+                for rep in range(1 if q else 3):
+                    out.append(("ChowLiuTree", dict(d=d, kind=kind, root=root, dseed=seed + 31 * d + rep)))
     invalid = [
         ("RandomBinaryTree", dict(num_variables=0)), ("RandomBinaryTree", dict(num_variables=3, num_repetitions=0)),
         ("RandomBinaryTree", dict(num_variables=4, depth=3)), ("RandomBinaryTree", dict(num_variables=4, depth=-1)),
@@ -114,6 +121,23 @@ def construct(name, kw):
             if kw["kind"] == "factorial":
                 return RG.ChowLiuTree(combos.long(), "categorical", root=kw["root"], num_categories=2)
             return RG.ChowLiuTree(combos.double() * 2.0 - 1.0, "gaussian", root=kw["root"])
+        if kw["kind"] in ("independent", "chain", "chain-gaussian", "clusters"):
+            if kw["kind"] == "independent":
+                return RG.ChowLiuTree(torch.randint(0, 3, (n, d), generator=g), "categorical", root=kw["root"], num_categories=3)
+            perm = torch.randperm(d, generator=g).tolist()
+            z = torch.zeros(n, d)
+            if kw["kind"].startswith("chain"):
+                prev = torch.randn(n, generator=g)
+                for v in perm:
+                    prev = 0.8 * prev + 0.6 * torch.randn(n, generator=g)
+                    z[:, v] = prev
+            else:
+                a, b = torch.randn(n, generator=g), torch.randn(n, generator=g)
+                for i, v in enumerate(perm):
+                    z[:, v] = (a if i % 2 == 0 else b) + 0.5 * torch.randn(n, generator=g)
+            if kw["kind"] == "chain-gaussian":
+                return RG.ChowLiuTree(z, "gaussian", root=kw["root"])
+            return RG.ChowLiuTree((z > 0).long() + (z > 1).long(), "categorical", root=kw["root"], num_categories=3)
         z = torch.randn(n, d, generator=g)
         z = z + 0.7 * z[:, [0]]  # some dependence
         if kw["kind"] == "categorical":
